@@ -5,6 +5,7 @@ import LyModel.Valid.LemmasLoop
 import LyModel.Valid.WellFormed
 import LyModel.Valid.LemmasNpCont
 import LyModel.Valid.LemmasCaseStable
+import LyModel.Valid.LemmasNpValidate
 /-!
 # C07 — validation is an idempotent normalisation whose reported changes are exact
 
@@ -383,6 +384,28 @@ example :
     ((applyCreate Sx [.plain 0, .plain 3] [.term 4 {} [] [121]] t0).map (beqL t1) = some true) ∧
     ((applyDelete Sx [.plain 0, .plain 3, .plain 4] t1).map (beqL t0) = some true) := by decide
 
+/-- **`np_cont_dflt` for the validation step itself**: for every schema (choices, cases, lists, … — no hypothesis), every variant of
+the code and every option set, `lyd_validate` hands back a tree that satisfies the invariant `npInvL` — every non-presence
+container carries `LYD_DEFAULT` iff all its children do — as soon as in the input every default-flagged non-presence container
+has default children only (`halfInvL`, one half of the invariant; a container wrongly left explicit is repaired by
+`lyd_np_cont_dflt_set` in `lyd_validate_final_r`).  In particular validation keeps the invariant.  The proof: `lyd_validate_new`
+hands back nodes that were there, `lyd_new_implicit` adds default nodes without children (`implL_onlyAdds`, all variants), the
+subtree walk keeps the flags of every node it passes, so a default container still has default children only when
+`lyd_validate_final_r` comes back to it, and an explicit one gets the flag there exactly when all its (finalised) children have it. -/
+theorem np_cont_dflt_validate (X : SchemaX) (o : VOpts) (t : List DNode) :
+    (halfInvL X.base t → npInvL X.base (validate X o t).tree) ∧ (npInvL X.base t → npInvL X.base (validate X o t).tree) :=
+  ⟨validate_npInv X o t, fun h => validate_npInv X o t (halfInvL_of_npInvL X.base t h)⟩
+
+/-- non-vacuity (schema `Sx`): `c` left explicit although its only child is a default `d` — the half invariant holds, the full one
+does not; the validation adds the other defaults below `c` and flags `c` default -/
+example :
+    let t0 : List DNode := [.inner 0 {} [] [.term 1 { dflt := true } [] [120]]]
+    halfInvL Sx t0 ∧ ¬ npInvL Sx t0 ∧ (validate Xx {} t0).tree.map (fun n => (n.flags.dflt, n.kids.length)) = [(true, 4)] := by
+  refine ⟨by simp [halfInvL, halfInvN], ?_, by decide⟩
+  intro h
+  simp only [npInvL, npInvN] at h
+  exact absurd (h.1.1 (by decide)) (by decide)
+
 /-! ## not proved
 
 -- (`validate_idempotent` for schemas with `choice` / `case`: proved for the repaired variants under `NoNpContInCase`
@@ -393,8 +416,6 @@ example :
 -- OPEN: `valdiff_exact` (applying the returned diff to the input gives the output; the diff is empty iff nothing changed).
 -- The model composes `Valid.ValDiff.valDiff` with the `diff` component's `apply`; laws `valdiff-apply` / `valdiff-eq`
 -- evaluate it on the implementation; findings F177, F178, F179 are its counterexamples in the code.
--- OPEN: `np_cont_dflt` for the validation step itself (`validate` keeps `npInvL`: it removes and creates default nodes only,
--- `npSet` in `lyd_validate_final_r`); law `dflt-flag` checks the flags after every step of every history.
 -- OPEN: `implicit_exact` through choices (default case chosen iff no case has data): `dflt_flag_sound` gives soundness
 -- for all schemas, exactness is proved for the choice-free level (`implicit_exact`); law `implicit` against `rfcdefaults`.
 -/
